@@ -246,6 +246,11 @@ func (e *Engine) rootsFor(prop string) (jobs []rootJob, problems []string) {
 				tagged = true
 			}
 		}
+		for _, a := range s.Covers {
+			if hasTag(a.Tags, prop) {
+				tagged = true
+			}
+		}
 		if !tagged {
 			continue
 		}
